@@ -137,11 +137,16 @@ PROPS['C04'] = dict(
     assumptions=['witness-in-bounds per criterion (C02) is covered by the bounded stand-in only; the instantiation of the set-level lemmas by the contracts is by inspection'])
 PROPS['C05'] = dict(
     title='With stability requested the solver searches exactly the stable matchings',
-    functions=[LP + 'stability_constraints'], lemmas=['C05/prefix-filter', 'SUM/le', 'SUM/squeeze', 'SUM/ext', 'C05/no-blocking-iff', 'C05/alpha-beta-gamma'], level='other',
-    level_text=EXACT + 'stability_constraints adds, for every acceptable pair p of every student, exactly: -d_k*alpha_p + (sum over l_k\'s list of the variables of other students ranked at least as well as s_i) >= 0, the same with -c_j*beta_p restricted to p_j, and (1 - sum of s_i\'s variables at rank <= rank(p)) - alpha_p - beta_p <= 0 (while-loop prefix = rank filter by lemma C05/prefix-filter on sorted rows).  The logical core is machine-checked over abstract list quantities: exists alpha,beta in {0,1} satisfying the three constraints <=> (s_i assigned at rank <= rank(p), or Lk >= d_k, or Pj >= c_j) (C05/alpha-beta-gamma) <=> p does not block, given capacities are respected (C05/no-blocking-iff, by the sum-squeeze lemma).  NOT proved deductively (bounded stand-in): the bridge from these abstract quantities to the loads of the property statement (lecturer_lists[k] holds exactly l_k\'s pairs, each once: ModelWF sum identity)',
+    functions=[LP + 'stability_constraints', MOD + 'set_lecturer_lists', MOD + 'pulp_setup'],
+    lemmas=['C05/prefix-filter', 'SUM/le', 'SUM/squeeze', 'SUM/ext', 'SUM/nonneg', 'SUM/term-le', 'C05/no-blocking-iff', 'C05/alpha-beta-gamma', 'C05/stable-iff-constraints',
+            'LISTSET/empty-append', 'LISTSET/iterate'], level='proof',
+    level_text=EXACT + 'stability_constraints adds, for every acceptable pair p of every student, exactly: -d_k*alpha_p + (sum over l_k\'s list of the variables of other students ranked at least as well as s_i) >= 0, the same with -c_j*beta_p restricted to p_j, and (1 - sum of s_i\'s variables at rank <= rank(p)) - alpha_p - beta_p <= 0 (while-loop prefix = rank filter by lemma C05/prefix-filter on sorted rows).  Lemma C05/stable-iff-constraints (18 obligations) then proves for every acceptable pair p of every valid 0/1 valuation: these three constraints admit 0/1 values of alpha_p, beta_p  <=>  (s_i holds a pair at rank <= rank(p), or Lk >= d_k, or Pj >= c_j)  <=>  p does NOT block the matching {q : nu(q) = 1}, where "blocks" is written in pair space exactly as in the property statement (loads = sums over all pairs of that project / lecturer; worse assignee; lecturer already supervises the student).  Its ingredients are all machine-checked: the lecturer lists\' sum identity for every weight (set_lecturer_lists), instantiated with nu and with nu restricted to p\'s project; the lists\' element sets; the logical cores C05/no-blocking-iff (sum-squeeze) and C05/alpha-beta-gamma; wrong variants of the blocking definition (3b without "already supervises", >= instead of >, 3c without the worse assignee) are refuted by the same lemma',
     harness=True, bound='<= 4 students x <= 3 projects x <= 3 lecturers, two-sided, -stab with 0-1 criteria, real CBC; all stable matchings enumerated',
     budget={'quick': 25, 'thorough': 300}, trusted=T_LP,
-    assumptions=['semantic equivalence of the alpha/beta/gamma system with the blocking-pair definition: bounded stand-in only'])
+    assumptions=['by inspection: the three inequalities of the lemma are the text of stability_constraints\' postcondition (same sums, self.model written m)',
+                 'alpha / beta variables of different pairs are different LP variables (pulp_setup names them by student and project number), so "every pair has values" and "one valuation has all values" coincide; a student does not list one project twice',
+                 'the valuation is 0/1 on the pair variables, every row sums to at most 1 and the capacities are respected: these are the matching constraints (C01 chain)',
+                 'the model at solve time is the one the reader built (lecturer lists as set_lecturer_lists left them)'])
 PROPS['C14'] = dict(
     title='A run that was cut short or proved infeasible never presents a matching',
     functions=[LP + 'perform_optimisation', LP + 'optimisation_generous', LP + 'optimisation_greedy', LP + 'run_optimisations', LP + 'run', 'solver:Solver.solve', MOD + 'get_results',
